@@ -160,3 +160,60 @@ def strip_comments(s):
             return [s[0], s[1], fields, strip_comments(s[3])]
         return [strip_comments(x) for x in s]
     return s
+
+
+def reachable_ids(*roots):
+    """ids of every object reachable from the given roots (attrs fields, instance dicts, containers)."""
+    seen = set()
+    stack = list(roots)
+    while stack:
+        o = stack.pop()
+        if id(o) in seen or o is None or isinstance(o, (bool, int, float, str, numpy.generic)):
+            continue
+        seen.add(id(o))
+        if isinstance(o, (list, tuple, set, frozenset)):
+            stack.extend(o)
+        elif isinstance(o, dict):
+            stack.extend(o.values())
+        elif attr.has(type(o)):
+            stack.extend(getattr(o, f.name, None) for f in attr.fields(type(o)))
+            stack.extend(getattr(o, "__dict__", {}).values())
+    return seen
+
+
+def caller_edit(res, keep):
+    """the caller, who owns what a call returned, edits it IN PLACE: every list / numpy array reachable from the result that
+    is not one of the shared argument objects or library singletons (ids in `keep`) gets its numeric items changed.
+    Returns the number of containers edited."""
+    edited = 0
+    seen = set()
+    stack = [res]
+    while stack:
+        o = stack.pop()
+        if o is None or id(o) in seen or id(o) in keep or isinstance(o, (bool, int, float, str, numpy.generic)):
+            continue
+        seen.add(id(o))
+        if isinstance(o, numpy.ndarray):
+            if o.dtype.kind == "f" and o.flags.writeable:
+                o *= 1.5
+                o += 0.25
+                edited += 1
+        elif isinstance(o, list):
+            changed = False
+            for i, x in enumerate(o):
+                if isinstance(x, float):
+                    o[i] = x * 1.5 + 0.25
+                    changed = True
+                elif isinstance(x, tuple) and x and all(isinstance(y, float) for y in x):
+                    o[i] = tuple(y * 1.5 + 0.25 for y in x)
+                    changed = True
+                else:
+                    stack.append(x)
+            edited += changed
+        elif isinstance(o, tuple):
+            stack.extend(o)
+        elif isinstance(o, dict):
+            stack.extend(o.values())
+        elif attr.has(type(o)):
+            stack.extend(getattr(o, f.name, None) for f in attr.fields(type(o)))
+    return edited
